@@ -111,7 +111,10 @@ static int simWaitPid(int pid, int* status, int options) {
         if (!PS.synthetic) { PS.pos++; continue; }
         PS.pos++;
         if (o.kind == K_W_ERR) { fired("wait_error"); errno = (int)o.a; return -1; }
-        if (o.kind == K_W_STOP) { fired("child_stop"); *status = (int)((o.a << 8) | 0x7f); return pid; }
+        if (o.kind == K_W_STOP) {
+            // a stop is only reported to a waiter that asks for it; without WUNTRACED the parent would sleep on a stopped child for ever
+            if (!(options & WUNTRACED)) { fired("stop_not_asked_for"); procLog(4, PS.waitCalls); PS.pos = PS.script.size(); *status = 0; return pid; }
+            fired("child_stop"); *status = (int)((o.a << 8) | 0x7f); return pid; }
         if (o.kind == K_W_EXIT) { fired("child_exit"); *status = (int)((o.a & 0xff) << 8); return pid; }
         if (o.kind == K_W_SIGNAL) { fired("child_signal"); *status = (int)(o.a | (o.b ? 0x80 : 0)); return pid; }
     }
@@ -229,7 +232,7 @@ static void execOp(const Group& T, const Op& o) {
     case K_DIE_ABORT: if (PS.inChild) { signal(SIGABRT, SIG_DFL); abort(); } break;
     case K_DIE_STOP: if (PS.inChild) raise(SIGSTOP); break;
     case K_PLUGIN_INSTALL: { size_t p = (size_t)o.a; if (p < RS.pluginObjs.size() && !RS.pluginInstalled[p]) { RS.reg->installPlugin(RS.pluginObjs[p]); RS.pluginInstalled[p] = 1; } break; }
-    case K_PLUGIN_REMOVE: { size_t p = (size_t)o.a; if (p < RS.pluginObjs.size() && RS.pluginInstalled[p]) { RS.reg->removePluginByName(RS.pluginObjs[p]->getName()); RS.pluginInstalled[p] = 0; } break; }
+    case K_PLUGIN_REMOVE: { size_t p = (size_t)o.a; if (p < RS.pluginObjs.size()) { if (!RS.pluginInstalled[p]) fired("remove_plugin_name_that_is_not_installed"); RS.reg->removePluginByName(RS.pluginObjs[p]->getName()); RS.pluginInstalled[p] = 0; } break; }   // a name that is not installed: nothing may change
     case K_PTR_SET: UT_PTR_SET(g_tgt[o.a % N_TARGETS], (void*)&g_val[o.b % N_VALUES]); break;
     default: break;
     }
@@ -439,7 +442,9 @@ void executeRun(const Desc& d, Obs& o) {
     {   // removals by name, at any chain position (the leak plugin sits on top of the scripted ones)
         Vec<size_t> rm; for (size_t p = 0; p < RS.pluginGroups.size(); p++) if (d.groups[(size_t)RS.pluginGroups[p]].arg(1)) rm.push_back(p);
         if (d.pi("remove_rev")) std::reverse(rm.begin(), rm.end());
+        if (d.pi("remove_absent") & 1) { reg.removePluginByName("NeverInstalledPlugin"); fired("remove_plugin_name_that_is_not_installed"); }
         for (size_t i = 0; i < rm.size(); i++) { reg.removePluginByName(d.groups[(size_t)RS.pluginGroups[rm[i]]].sarg(0)); fired("plugin_removed"); }
+        if (d.pi("remove_absent") & 2) { reg.removePluginByName(rm.empty() ? "NeverInstalledPlugin" : d.groups[(size_t)RS.pluginGroups[rm[0]]].sarg(0)); fired("remove_plugin_name_that_is_not_installed"); }   // a second removal of a removed name
         size_t nLate = 0; for (size_t p = 0; p < RS.pluginGroups.size(); p++) if (d.groups[(size_t)RS.pluginGroups[p]].arg(2)) nLate++;
         o.pluginCount = reg.countPlugins(); o.pluginCountExpected = (int)(RS.pluginGroups.size() - rm.size() - nLate) + 1;
         for (size_t i = 0; i < rm.size(); i++) if (reg.getPluginByName(d.groups[(size_t)RS.pluginGroups[rm[i]]].sarg(0)) != 0) o.removedStillFound++;
